@@ -591,8 +591,13 @@ func (fr *frame) visit(instr ssa.Instruction) continuation {
 				fr.symIter = map[*ssa.BasicBlock]int{}
 			}
 			fr.symIter[fr.block]++
-			if fr.symIter[fr.block] > e.unwind {
-				e.endPath(stUnwind, fmt.Sprintf("symbolic branch in %s taken more than %d times", fr.fn, e.unwind))
+			if fr.symIter[fr.block] > e.unwind || (e.inMerge > 0 && fr.symIter[fr.block] > 16) {
+				if e.inMerge > 0 {
+					// speculative evaluation of a region block (possibly under an
+					// infeasible reach condition) does not terminate: give up the merge
+					panic(mergeAbort{})
+				}
+				e.endPath(stUnwind, fmt.Sprintf("symbolic branch in %s (block %s) taken more than %d times", fr.fn, fr.block.Comment, e.unwind))
 			}
 			take = e.Decide(c)
 		}
